@@ -229,6 +229,12 @@ def parseStatus (s : String) : Option (List (Nat × Phase)) :=
     | n :: ph :: _ => do let n ← n.toNat?; let ph ← parsePhase ph; pure (n, ph)
     | _ => none) (s.splitOn ",")
 
+def parseStatusCfg (s : String) : Option (List (Nat × Nat)) :=
+  if s == "-" then some [] else
+  parseAll (fun t => match t.splitOn ":" with
+    | n :: _ :: v :: _ => do let n ← n.toNat?; let v ← v.toNat?; pure (n, v)
+    | _ => none) (s.splitOn ",")
+
 structure RaceImpl where
   wire : List (Nat × List (Msg × Bool))
   aClosed : Bool
@@ -342,7 +348,11 @@ def clientStep (st : ClientState) (tok : List String) (impl : String) : ClientSt
         let r := (step w .inWorkConn).2.2
         (st, verdictOf (resTok r) impl (some ((impl == "handed") == (w.phase == .running))))
     | none => (st, .bad "work")
-  | ["status"] => (st, verdictOf (statusStr st.m) impl)
+  | ["status"] =>
+    -- the clause about WHAT runs, on the implementation's answer: every wrapper holds the configured
+    -- entry of its name in the last loaded list (an object something has written into decodes to no entry)
+    let obs := (parseStatusCfg impl).map (C19.statusHoldsOn (st.lastCfgs.getD []))
+    (st, verdictOf (statusStr st.m) impl obs)
   | "race" :: kind :: rest => raceStep st kind rest impl
   | ["close"] =>
     let (m', stp, ev) := closeAll st.m
@@ -382,7 +392,7 @@ def clientStep (st : ClientState) (tok : List String) (impl : String) : ClientSt
           (st, verdictOf (resTok (step w .inWorkConn).2.2) impl (some (C19.stoppedQuiet impl)))
         else if op == "ostat" then (st, verdictOf (phaseTok w.phase) impl (some (impl == "closed")))
         else (st, .bad op)
-  | ["live"] => ({}, verdictOf "N=true,ok,C=true,chk,N=true" impl (some (impl == "N=true,ok,C=true,chk,N=true")))
+  | ["live"] => ({}, verdictOf "N=true,ok,R=same,C=true,chk,N=true" impl (some (impl == "N=true,ok,R=same,C=true,chk,N=true")))
   | ["livebackoff"] => ({}, verdictOf "resperr,retry=after" impl (some (impl == "resperr,retry=after")))
   | _ => (st, .bad "op")
 
